@@ -182,7 +182,7 @@ class Check(PropertyCheck):
     parallel = False
 
     def setup(self, tier):
-        self.parallel = tier == "thorough"
+        self.parallel = False      # serial in every tier: forked pool workers occasionally dead-lock under load (60 s case time-outs)
         self.rank_m, self.rank_u = _rank_tables()
         self.known_selftest()
 
